@@ -1,0 +1,32 @@
+//go:build verif
+
+package keeper
+
+// Contracts for x/mint/keeper, read by /verif/bin/govc. Comment-only: compiled
+// only with -tags verif and adds no code.
+//
+// Ghost state: bank.bal[account] (loya balance), bank.supply (total supply),
+// mint.Minter (the stored Minter item). coins(c) is the amount of a coin set.
+
+//@ func (k Keeper).MintCoins(ctx, newCoins) (err)
+//@ modifies bank.bal, bank.supply
+//@ ensures [mints_exactly_the_coins] err == nil ==> bank.supply == old(bank.supply) + coins(newCoins) && bank.bal[module("mint")] == old(bank.bal[module("mint")]) + coins(newCoins)
+//@ ensures [no_change_on_error] err != nil ==> bank.supply == old(bank.supply) && bank.bal == old(bank.bal)
+//@ ensures [other_accounts_untouched] forall a addr :: a != module("mint") ==> bank.bal[a] == old(bank.bal[a])
+
+//@ func (k Keeper).SendInflationaryRewards(ctx, coins) (err)
+//@ requires [single_loya_coin] len(coins) <= 1 && (len(coins) == 1 ==> coins[0].Denom == "loya" && coins[0].Amount > 0)
+//@ requires [pools_distinct_from_mint] module("time_based_rewards") != module("mint") && module("fee_collector") != module("mint") && module("time_based_rewards") != module("fee_collector")
+//@ modifies bank.bal
+//@ ensures [quarter_to_fee_collector] err == nil ==> bank.bal[module("fee_collector")] == old(bank.bal[module("fee_collector")]) + coins(coins)/4
+//@ ensures [three_quarters_to_reward_pool] err == nil ==> bank.bal[module("time_based_rewards")] == old(bank.bal[module("time_based_rewards")]) + (coins(coins) - coins(coins)/4)
+//@ ensures [mint_account_debited_whole] err == nil ==> bank.bal[module("mint")] == old(bank.bal[module("mint")]) - coins(coins)
+//@ ensures [other_accounts_untouched] forall a addr :: a != module("mint") && a != module("fee_collector") && a != module("time_based_rewards") ==> bank.bal[a] == old(bank.bal[a])
+//@ ensures [no_change_on_error] err != nil ==> bank.bal == old(bank.bal)
+
+//@ func (k msgServer).Init(goCtx, msg) (resp, err)
+//@ requires [msg_present] msg != nil
+//@ modifies mint.Minter
+//@ ensures [only_authority_starts_minting] err == nil ==> msg.Authority == k.Keeper.authority
+//@ ensures [sets_initialized] err == nil ==> mint.Minter.Initialized && !old(mint.Minter.Initialized)
+//@ ensures [no_change_on_error] err != nil ==> mint.Minter == old(mint.Minter)
